@@ -46,6 +46,10 @@ var xUnits = []xUnit{
 	// selector.BuildStaticWeightList up to the scaling range: static-weight check, min / max weight, guard, clamp
 	{Name: "tr_BSWL_range", Dir: "tars/selector", Func: "BuildStaticWeightList", From: "var maxRange, totalWeight int", To: "if minWeight > 0 {",
 		Outs: []string{"maxRange", "totalWeight", "minWeight", "maxWeight"}},
+	// the registry <-> endpoint conversions (Tars2endpoint without its cache key)
+	{Name: "tr_Endpoint2tars", Dir: "tars/util/endpoint", Func: "Endpoint2tars"},
+	{Name: "tr_Tars2endpoint_build", Dir: "tars/util/endpoint", Func: "Tars2endpoint", From: `proto := "tcp"`, To: "e := Endpoint{",
+		Outs: []string{"e"}, After: []string{"e.Key = e.String()", "return e"}},
 	// AdapterProxy.checkActive: the failover thresholds; the clock, the outcome of ReConnect and the float32 failure
 	// ratio comparison are oracles
 	{Name: "tr_checkActive", Dir: "tars", Func: "AdapterProxy.checkActive", Recv: true,
